@@ -490,21 +490,23 @@ impl<'de, 'a> DeserializeSeed<'de> for Seed<'a> {
         let ty = self.0;
         let t = ty["t"].as_str().unwrap();
         match t {
-            "bool" => d.deserialize_bool(Prim("bool")),
-            "i8" => d.deserialize_i8(IntV("i8")),
-            "i16" => d.deserialize_i16(IntV("i16")),
-            "i32" => d.deserialize_i32(IntV("i32")),
-            "i64" => d.deserialize_i64(IntV("i64")),
-            "i128" => d.deserialize_i128(IntV("i128")),
-            "u8" => d.deserialize_u8(IntV("u8")),
-            "u16" => d.deserialize_u16(IntV("u16")),
-            "u32" => d.deserialize_u32(IntV("u32")),
-            "u64" => d.deserialize_u64(IntV("u64")),
-            "u128" => d.deserialize_u128(IntV("u128")),
-            "f64" => d.deserialize_f64(Prim("f64")),
-            "f32" => d.deserialize_f32(Prim("f32")),
-            "char" => d.deserialize_char(Prim("char")),
-            "str" => d.deserialize_string(Prim("str")),
+            // primitives are read back through serde's OWN impls for the Rust type (what `T::deserialize` does for a user),
+            // not through a visitor of this probe that might accept more
+            "bool" => <bool as serde::Deserialize>::deserialize(d).map(Term::Bool),
+            "i8" => <i8 as serde::Deserialize>::deserialize(d).map(|v| Term::Int("i8".into(), v.to_string())),
+            "i16" => <i16 as serde::Deserialize>::deserialize(d).map(|v| Term::Int("i16".into(), v.to_string())),
+            "i32" => <i32 as serde::Deserialize>::deserialize(d).map(|v| Term::Int("i32".into(), v.to_string())),
+            "i64" => <i64 as serde::Deserialize>::deserialize(d).map(|v| Term::Int("i64".into(), v.to_string())),
+            "i128" => <i128 as serde::Deserialize>::deserialize(d).map(|v| Term::Int("i128".into(), v.to_string())),
+            "u8" => <u8 as serde::Deserialize>::deserialize(d).map(|v| Term::Int("u8".into(), v.to_string())),
+            "u16" => <u16 as serde::Deserialize>::deserialize(d).map(|v| Term::Int("u16".into(), v.to_string())),
+            "u32" => <u32 as serde::Deserialize>::deserialize(d).map(|v| Term::Int("u32".into(), v.to_string())),
+            "u64" => <u64 as serde::Deserialize>::deserialize(d).map(|v| Term::Int("u64".into(), v.to_string())),
+            "u128" => <u128 as serde::Deserialize>::deserialize(d).map(|v| Term::Int("u128".into(), v.to_string())),
+            "f64" => <f64 as serde::Deserialize>::deserialize(d).map(Term::F64),
+            "f32" => <f32 as serde::Deserialize>::deserialize(d).map(Term::F32),
+            "char" => <char as serde::Deserialize>::deserialize(d).map(Term::Char),
+            "str" => <String as serde::Deserialize>::deserialize(d).map(Term::Str),
             "unit" => d.deserialize_unit(Prim("unit")),
             "opt" => d.deserialize_option(OptV(ty)),
             "seq" => d.deserialize_seq(SeqV { elem: Some(&ty["a"]), elems: None, tuple: false }),
